@@ -48,7 +48,12 @@ RULE = ("documents of 1-4 paragraphs of 1-5 fields; policy-valid names (mixed ca
 TRUSTED = ["model coq/Deb822/Model.v is a hand transcription of Deb822.__init__/iter_paragraphs/_skip_useless_lines/"
            "split_gpg_and_payload/_internal_parser/validate_input/__setitem__/_dump_format and of "
            "_gpg_multivalued.__init__ (regex leaves match_single/match_multi/match_multidata/match_gpgre/blank_* "
-           "included); tied to the code only by this correspondence",
+           "included); tied to the code by this correspondence and, for _skip_useless_lines, split_gpg_and_payload, "
+           "gpg_stripped_paragraph, _internal_parser (+ wanted_field), validate_input, __setitem__, get_as_string, "
+           "_dump_format, _dump_str, by regeneration (coq/Gen/TrDeb822.v, coq/Props/C02Tie.v: the regenerated control flow "
+           "equals the model on all inputs; the regex leaves, Deb822Dict.__setitem__/__getitem__/__iter__, the str methods "
+           "and the codec stay hand-modelled primitives, coq/Deb822/TrPrims.v); Deb822.__init__, iter_paragraphs, dump() "
+           "and _gpg_multivalued.__init__ are tied by the correspondence only",
            "Python str.splitlines/bytes.splitlines/strip as modelled in coq/Lib/PyStr.v (validated by ./check LIB)",
            "file objects yield LF-terminated lines (io.StringIO, io.BytesIO, open(..., newline='\\n'), open(..., 'rb')): "
            "modelled by Model.file_lines; the text a file object presents is taken from the same object type"]
@@ -66,7 +71,10 @@ ASSUMPTIONS = ["UTF-8 encode/decode is not modelled: bytes inputs are represente
 # generation
 
 NAMES = ["Package", "Version", "Description", "X-Foo", "a", "Z9", "!odd~name", "Depends", "x/y", "Homepage",
-         "UPPER", "lower", "Mixed-Case", "n0", "Built-Using", "é", "K.k", "b+c", "_u", "Q?"]
+         "UPPER", "lower", "Mixed-Case", "n0", "Built-Using", "é", "K.k", "b+c", "_u", "Q?",
+         # every printable ASCII character except ':' and space is legal in a field name (Policy 5.1)
+         "Disk%Used", "Load-100%", "Rate%s", "a%%b", "%d", "x{0}", "{}", "\\n", "a\\", "$1", "`q`", "[i]", "(p)",
+         "a*b", "s'q", 'd"q', "a,b", "a;b", "<t>", "e=f", "a@b", "^c", "p|q", "t~", "&amp"]
 FIRST_POOL = ["", "x", "value", ":x", "#x", "-x", "- x", " lead", "trail \t", "a: b", "a:b:c", "é ü 日本",
               "\u00a0nbsp", "tab\there", "  ", "\t", "-----BEGIN PGP SIGNED MESSAGE-----",
               "-----BEGIN PGP SIGNATURE-----", "1.0-1", "foo (>= 1), bar", "x \u2003", ".", "#", ":", "-",
@@ -252,16 +260,46 @@ def _leaf_cases(rng, n, tier):
     return out
 
 
+POISON = [("cp1251", "Description: \u041f\u0440\u0438\u0432\u0435\u0442, \u043c\u0438\u0440! \u042d\u0442\u043e \u0442\u0435\u043a\u0441\u0442 \u043d\u0430 \u0440\u0443\u0441\u0441\u043a\u043e\u043c \u044f\u0437\u044b\u043a\u0435 \u0434\u043b\u044f \u043f\u0440\u043e\u0432\u0435\u0440\u043a\u0438.\n"),
+          ("koi8-r", "Maintainer: \u0418\u0432\u0430\u043d \u041f\u0435\u0442\u0440\u043e\u0432 \u0440\u0430\u0431\u043e\u0442\u0430\u0435\u0442 \u043d\u0430\u0434 \u043f\u0430\u043a\u0435\u0442\u043e\u043c \u043a\u0430\u0436\u0434\u044b\u0439 \u0434\u0435\u043d\u044c\n"),
+          ("iso-8859-7", "Description: \u039a\u03b1\u03bb\u03b7\u03bc\u03ad\u03c1\u03b1 \u03ba\u03cc\u03c3\u03bc\u03b5, \u03b1\u03c5\u03c4\u03cc \u03b5\u03af\u03bd\u03b1\u03b9 \u03ad\u03bd\u03b1 \u03ba\u03b5\u03af\u03bc\u03b5\u03bd\u03bf\n"),
+          ("latin-1", "Maintainer: Jos\u00e9 Mu\u00f1oz\nDescription: caf\u00e9 cr\u00e8me br\u00fbl\u00e9e d\u00e9j\u00e0 vu na\u00efve fa\u00e7ade\n")]
+
+
+def _poison(k):
+    """A PREVIOUS, unrelated use of the library in the same process: parse a paragraph in a legacy 8-bit encoding
+    (bytes that are not valid UTF-8; the library auto-detects), in every entry point, and edit what it returned.
+    Whatever it does must not influence the next parse."""
+    from debian import deb822
+    enc, text = POISON[k % len(POISON)]
+    data = text.encode(enc)
+    for f in (lambda: deb822.Deb822(data), lambda: list(deb822.Deb822.iter_paragraphs(data)),
+              lambda: deb822.Deb822(data.splitlines()), lambda: deb822.Dsc(data), lambda: deb822.Changes(data)):
+        try:
+            r = f()
+            for q in (r if isinstance(r, list) else [r]):
+                q["X-Edited"] = "y"
+                q.dump()
+        except Exception:
+            pass
+
+
 def generate(rng, n, tier):
     n_leaf = n // 4
     n_doc = n - n_leaf
     for c in _leaf_cases(rng, n_leaf, tier):
         yield c
+    late = []
     for _ in range(n_doc):
-        if rng.random() < 0.3:
-            yield _gen_raw(rng)
+        c = _gen_raw(rng) if rng.random() < 0.3 else _gen_doc(rng)
+        if rng.random() < 0.06:
+            # run LAST, each after an unrelated earlier parse in the same process (state must not leak between uses)
+            c["poison"] = rng.randrange(len(POISON))
+            late.append(c)
         else:
-            yield _gen_doc(rng)
+            yield c
+    for c in late:
+        yield c
 
 
 def from_json(j):
@@ -396,6 +434,8 @@ def _read(case, lines):
 def run_impl(case):
     from debian import deb822
     t = case["t"]
+    if case.get("poison") is not None:
+        _poison(case["poison"])
     if t == "doc":
         dumps = []
         for para in case["paras"]:
@@ -606,3 +646,147 @@ def describe(case, obs):
                               "with the first line trimmed")
         return d
     return {"case": case, "observed": obs}
+
+
+# ---------------------------------------------------------------------------------------------------
+# TIE BY REGENERATION (DESIGN §3.1b): the control flow of the reader and of the writer is regenerated from
+# lib/debian/deb822.py into coq/Gen/TrDeb822.v on every run (harness/py2coq.py); coq/Deb822/Tie.v proves the
+# regenerated functions equal to the model functions of coq/Deb822/Model.v on ALL inputs; statements in
+# coq/Props/C02Tie.v.  Primitives (regex leaves, str methods, the mapping): coq/Deb822/TrPrims.v.
+#
+# str/bytes: lines are code-point lists in both flavours (the model's abstraction of the codec); ONE translation
+# with a leading Coq parameter `is_bytes` (ghost) = "the elements of `sequence` are bytes objects", read by
+# isinstance(line, bytes) / isinstance(line_, str).  `.encode()` / `self.decoder.decode()` are the identity on code
+# points (Deb822/Model.v header).  The b'' / '' flavour of a LITERAL is not visible to the translator.
+from harness import extract, py2coq as _P   # noqa: E402
+
+TIE_FILE = "Props/C02Tie.v"
+
+_LS = ("list", "str")
+_IT = ("iter", "str")
+_PYT = ("coq", "trp_pytype")
+_BPAT = ("coq", "trp_blank_pat")
+_GPGM = ("tuple", "str", "str")            # a match of _gpgre: (group 'action', group 'what')
+_STRICT = ("coq", "trp_strict")            # Optional[Dict[str, bool]]
+_GH = [("is_bytes", "bool")]
+_TRIPLE = ("tuple", _LS, _LS, _LS)
+
+_F_SKIP = _P.Fun("tr_skip_useless_lines", "Deb822._skip_useless_lines", [("sequence", _LS)], "str",
+                 locals={"at_beginning": "bool", "line": "str"}, generator=True, ghost=_GH)
+
+_SPLIT_LOCALS = {"gpg_pre_lines": _LS, "lines": _LS, "gpg_post_lines": _LS, "state": "str", "blank_line": _BPAT,
+                 "first_line": "bool", "line_": "str", "line": "str", "m": ("option", _GPGM)}
+# (a) `sequence` a list of lines: the result triple or EOFError
+_F_SPLIT = _P.Fun("tr_split_gpg_and_payload", "Deb822.split_gpg_and_payload",
+                  [("sequence", _LS), ("strict", _STRICT)], _TRIPLE, locals=_SPLIT_LOCALS, ghost=_GH)
+# (b) `sequence` an ITERATOR that the caller goes on using: the first parameter of the static method is threaded
+# as state (METHOD MODE with the iterator in the place of the object), so the translation also returns what is
+# left of the iterator — on normal return and on EOFError alike.  The loop is a Fixpoint on fuel.
+_F_SPLIT_IT = _P.Fun("tr_split_gpg_and_payload_it", "Deb822.split_gpg_and_payload", [("strict", _STRICT)], _TRIPLE,
+                     locals=_SPLIT_LOCALS, ghost=_GH, skip_first=True,
+                     state=[("<the iterator argument>", "sequence", _IT)], fuel={1: "S (length sequence)"})
+_F_STRIPPED = _P.Fun("tr_gpg_stripped_paragraph", "Deb822.gpg_stripped_paragraph",
+                     [("sequence", _LS), ("strict", _STRICT)], _LS, ghost=_GH, skip_first=True)
+for _f in (_F_SPLIT, _F_SPLIT_IT):
+    _f.join_defines = True      # `line` is first assigned in both branches of `if isinstance(line_, str)`
+
+# _internal_parser: METHOD MODE with the object itself (the ordered mapping it holds) as the one state variable
+# `self` of the opaque type trp_map; `self[curkey] = content` is the call self.__setitem__(curkey, content) of the
+# translated Deb822.__setitem__ on the current state ("<trp_map>.__setitem__" with Call.selfmethod, see below).
+# `sequence` is a line sequence (list / file / iterator); the str/bytes case (`sequence.splitlines()` first) is the
+# same path on `lines_of i` and is what Model.deb822_new expresses: isinstance(sequence, (str, bytes)) is the
+# primitive trp_seq_is_text (false on a line sequence).
+# The nested helper wanted_field closes over `fields`: translated on its own with `fields` as a leading (ghost)
+# parameter; the call passes the caller's current `fields`.
+_MAP = ("coq", "trp_map")
+_MOBJ = ("coq", "trp_mobj")                # a match of _single/_multi/_multidata: the groups 'key' and 'data'
+_FIELDS = ("option", _LS)
+_F_WANTED = _P.Fun("tr_wanted_field", "Deb822._internal_parser.wanted_field", [("f", "str")], "bool",
+                   ghost=[("fields", _FIELDS)])
+_ST_SELF = [("self", "self", _MAP)]
+_F_PARSER = _P.Fun("tr_internal_parser", "Deb822._internal_parser",
+                   [("sequence", _LS), ("fields", _FIELDS), ("strict", _STRICT)], "unit",
+                   locals={"curkey": ("option", "str"), "content": "str", "linebytes": "str", "line": "str",
+                           "m": ("option", _MOBJ)},
+                   ghost=_GH, skip_first=True, state=_ST_SELF)
+# self[curkey] = content is Deb822.__setitem__, translated too (same state, same ghost): validate_input (translated),
+# then Deb822Dict.__setitem__(self, key, value) = the hand-written primitive trp_dict_setitem on the object's state
+# (the model's dict_set: OrderedSet.add + dict store under the case-insensitive key).
+_F_VALID = _P.Fun("tr_validate_input", "Deb822.validate_input", [("key", "str"), ("value", "str")], "unit",
+                  locals={"line": "str"}, ghost=_GH, skip_first=True, state=_ST_SELF)
+_F_SETITEM = _P.Fun("tr_setitem", "Deb822.__setitem__", [("key", "str"), ("value", "str")], "unit",
+                    ghost=_GH, skip_first=True, state=_ST_SELF)
+_C_VALID = _P.Call("tr_validate_input", ["str", "str"], "unit")
+_C_VALID.selfmethod = "Deb822.validate_input"
+_C_SETITEM = _P.Call("tr_setitem", ["str", "str"], "unit")
+_C_SETITEM.selfmethod = "Deb822.__setitem__"
+_C_DICTSET = _P.Call("trp_dict_setitem", [_MAP, "str", "str"], "unit")
+_C_DICTSET.stateprim = True
+
+# The writer: the object is read only, so `self` is a leading (ghost) parameter of type trp_map.  `for key in self`
+# iterates over the ordered key list ("<trp_map>.__iter__" = the model's `keys`); self[key] is the model's lookup
+# (case-insensitive, KeyError); '%s: %s\n' % (key, value) is rendered as a concatenation.  dump() itself is not
+# translated (its fd branches write to a file object): with fd=None it is `return self._dump_str()`.
+_GSELF = [("self", _MAP)]
+_F_GETSTR = _P.Fun("tr_get_as_string", "Deb822.get_as_string", [("key", "str")], "str", ghost=_GSELF, skip_first=True)
+_F_DUMPF = _P.Fun("tr_dump_format", "Deb822._dump_format", [], "str",
+                  locals={"key": "str", "value": "str", "entry": "str"}, generator=True, ghost=_GSELF, skip_first=True)
+_F_DUMPF.join_defines = True     # `entry` is first assigned in both branches of the if
+_F_DUMPS = _P.Fun("tr_dump_str", "Deb822._dump_str", [], "str", ghost=_GSELF, skip_first=True)
+
+TR_MODULE = _P.Module(
+    "TrDeb822", "lib/debian/deb822.py",
+    funs=[_F_SKIP, _F_SPLIT, _F_SPLIT_IT, _F_STRIPPED, _F_WANTED, _F_VALID, _F_SETITEM, _F_PARSER, _F_GETSTR, _F_DUMPF, _F_DUMPS],
+    calls={
+        "isinstance": [_P.Call("trp_isinstance is_bytes", ["str", _PYT], "bool"),
+                       _P.Call("trp_seq_is_text", [_LS, ("literal", "(str, bytes)", "tt")], "bool")],
+        "<list>.splitlines": _P.Call("trp_seq_splitlines", [_LS], _LS),
+        "<str>.startswith": _P.Call("trp_startswith", ["str", "str"], "bool"),
+        "<str>.rstrip": _P.Call("trp_rstrip", ["str", "str"], "str"),
+        "<str>.strip": _P.Call("trp_strip", ["str", "str"], "str"),
+        "<str>.encode": _P.Call("trp_encode", ["str"], "str"),
+        "<trp_strict>.__bool__": _P.Call("trp_strict_bool", [_STRICT], "bool"),
+        "<trp_strict>.get": _P.Call("trp_strict_get", [_STRICT, "str", "bool"], "bool", True),
+        "<trp_blank_pat>.match": _P.Call("trp_blank_match", [_BPAT, "str"], "bool"),
+        "Deb822._initial_blank_line.match": _P.Call("trp_initial_blank_match", ["str"], "bool"),
+        "Deb822._gpgre.match": _P.Call("trp_gpgre_match", ["str"], ("option", _GPGM)),
+        "<tuple>.group": [_P.Call("trp_group_action", [_GPGM, ("literal", "'action'", "tt")], "str"),
+                          _P.Call("trp_group_what", [_GPGM, ("literal", "'what'", "tt")], "str")],
+        "cls.split_gpg_and_payload": _P.Call("tr_split_gpg_and_payload is_bytes", [_LS, _STRICT], _TRIPLE, True),
+        "self._skip_useless_lines": _P.Call("tr_skip_useless_lines is_bytes", [_LS], _LS, True),
+        "self.gpg_stripped_paragraph": _P.Call("tr_gpg_stripped_paragraph is_bytes", [_LS, _STRICT], _LS, True),
+        "wanted_field": _P.Call("tr_wanted_field fields", ["str"], "bool", True),
+        "self.decoder.decode": _P.Call("trp_decode", ["str"], "str"),
+        "self._single.match": _P.Call("trp_single_match", ["str"], ("option", _MOBJ)),
+        "self._multi.match": _P.Call("trp_multi_match", ["str"], ("option", _MOBJ)),
+        "self._multidata.match": _P.Call("trp_multidata_match", ["str"], ("option", _MOBJ)),
+        "<trp_mobj>.group": [_P.Call("trp_group_key", [_MOBJ, ("literal", "'key'", "tt")], "str", True),
+                             _P.Call("trp_group_data", [_MOBJ, ("literal", "'data'", "tt")], "str", True)],
+        "<trp_map>.__setitem__": _C_SETITEM,
+        "self.validate_input": _C_VALID,
+        "Deb822Dict.__setitem__": _C_DICTSET,
+        "<str>.endswith": _P.Call("trp_endswith", ["str", "str"], "bool"),
+        "<str>.splitlines": _P.Call("trp_splitlines", ["str"], _LS),
+        "<char>.isspace": _P.Call("trp_char_isspace", ["char"], "bool"),
+        "<trp_map>.__getitem__": _P.Call("trp_getitem", [_MAP, "str"], "str", True),
+        "<trp_map>.__iter__": _P.Call("trp_keys", [_MAP], _LS),
+        "str": _P.Call("trp_str_of_str", ["str"], "str"),
+        "self.get_as_string": _P.Call("tr_get_as_string self", ["str"], "str", True),
+        "self._dump_format": _P.Call("tr_dump_format self", [], _LS, True),
+        "<str>.join": _P.Call("trp_join", ["str", _LS], "str"),
+    },
+    consts={"bytes": ("TyBytes", _PYT), "str": ("TyStr", _PYT), "{}": ("trp_strict_empty", _STRICT),
+            "Deb822._blank_line_whitespace": ("BlankWs", _BPAT),
+            "Deb822._blank_line_no_whitespace": ("BlankNoWs", _BPAT)},
+    imports=["Deb822.Model", "Deb822.TrPrims"],
+    regexes=[("Deb822._gpgre", rb'^-----(?P<action>BEGIN|END) PGP (?P<what>[^-]+)-----[\r\t ]*$'),
+             ("Deb822._initial_blank_line", rb'^\s*$'), ("Deb822._blank_line_whitespace", rb'^\s*$'),
+             ("Deb822._blank_line_no_whitespace", rb'^$'),
+             ("Deb822._single", r"^(?P<key>[^: \t\n\r\f\v]+)\s*:\s*(?P<data>\S.*?)\s*$"),
+             ("Deb822._multi", r"^(?P<key>[^: \t\n\r\f\v]+)\s*:\s*$"),
+             ("Deb822._multidata", r"^\s(?P<data>.+?)\s*$")])
+
+
+@extract.register("TrDeb822")
+def _gen_tr(repo):
+    return _P.translate_module(repo, TR_MODULE)
